@@ -59,6 +59,24 @@ Theorem C06_stream_index_exact : forall H jobs src fault can_cancel store0 nw sc
 Proof. exact stream_index_exact. Qed.
 Print Assumptions C06_stream_index_exact.
 
+(* Conversely an error always has a cause (an injected fault, a row whose bytes no longer hash to its
+   id, a chunk missing from the source), and without faults, invalid jobs and cancellation every
+   schedule ends in nil: the model does not fail spuriously. *)
+Theorem C06_bulk_err_has_cause : forall H mode jobs src fault can_cancel store0 nw sched,
+  let s := run (bstep H mode jobs src fault can_cancel) sched (binit store0 nw) in
+  bulk_result s = RErr ->
+  (exists o n, fault o n = true) \/ (exists k, k < njobs jobs /\ job_bad H mode jobs src k).
+Proof. exact bulk_err_has_cause. Qed.
+Print Assumptions C06_bulk_err_has_cause.
+
+Theorem C06_bulk_no_fault_nil : forall H mode jobs src fault store0 nw sched,
+  (forall o n, fault o n = false) ->
+  (forall k, k < njobs jobs -> ~ job_bad H mode jobs src k) ->
+  let s := run (bstep H mode jobs src fault false) sched (binit store0 nw) in
+  bfinal s = true -> bulk_result s = RNil.
+Proof. exact bulk_no_fault_nil. Qed.
+Print Assumptions C06_bulk_no_fault_nil.
+
 (* ChunkStorage used directly with retries (no errgroup): a failed ws.StoreChunk unmarks the id,
    so the retry stores the chunk ... *)
 Theorem C06_retry_after_store_error : forall proc st i b,
